@@ -488,7 +488,7 @@ def gen_faultsweep_conn(r, g, cfg, kind, tier):
         for keep in range(7, L - 1, 3):
             add([[keep, L - keep, '']], False, 'cut_raw@')
     else:
-        vals_all = tier != 'quick' and L <= 120
+        vals_all = tier != 'quick' and L <= 31
         for o in range(L):
             cur = data[o]
             if vals_all:
@@ -500,6 +500,15 @@ def gen_faultsweep_conn(r, g, cfg, kind, tier):
             for v in sorted(vals):
                 add([[o, 1, '%02x' % v]], r.random() < 0.5 and o >= 7,
                     'overwrite@')
+    cap = 8000
+    if len(faults) > cap:
+        # a long frame with many fields: every k-th fault (deterministic);
+        # other runs of the sweep cover other frames
+        step = (len(faults) + cap - 1) // cap
+        faults = faults[::step]
+        for j, f_ in enumerate(faults):
+            f_['frame'] = j
+        frames = frames[:len(faults)]
     return {'recv': 'A', 'frames': frames, 'cuts': [[k, 0] for k in
                                                     range(1, len(frames))],
             'lat': [1], 'stalls': [], 'closes': [], 'faults': faults}
